@@ -45,7 +45,7 @@ def _outcome(fn):
         return type(e).__name__, None
 
 
-ENTRY = ("datetime", "datetime_local_str", "create", "convert", "instance", "set", "replace", "replace_fold", "on_at", "set_foreign", "on_at_foreign",
+ENTRY = ("datetime", "datetime_local_str", "create", "convert", "instance", "set", "replace", "replace_fold", "on_at", "on_keep_time_summer", "on_keep_time_winter", "set_foreign", "on_at_foreign",
          "parse", "tz_datetime", "naive_in_tz", "local")
 
 
@@ -91,6 +91,14 @@ def _call(pendulum, name, z, tzobj, f, fold, rse, recv):
         if (mid.year, mid.month, mid.day) != (y, mo, d):
             return None, None
         return mid.fold, lambda: mid.at(h, mi, s, us)
+    if name in ("on_keep_time_summer", "on_keep_time_winter"):
+        # on(): only the date changes, the receiver brings the time of day (and its fold) along
+        ry = min(max(y, 3), 9996)
+        rm = 7 if name.endswith("summer") else 1
+        r = pendulum.DateTime.create(ry, rm, 15, h, mi, s, us, tz=tzobj, fold=fold)
+        if obs.fields(r) != (ry, rm, 15, h, mi, s, us):
+            return None, None        # the receiver's own wall time does not exist / was moved
+        return r.fold, lambda: r.on(y, mo, d)
     if name == "replace":
         r = recv[fold]
         return r.fold, lambda: r.replace(year=y, month=mo, day=d, hour=h, minute=mi, second=s,
